@@ -13,7 +13,8 @@ import cidlib
 HOSTILE = ["", " ", "'", '"', "'ab", '"ab', "(", ")", "[", "]", "{", "\\", "-", "--", "...", ",", ";", ":", "#", "$", "?", "!", "`", "*", "+", "%",
            "é", "ß€", "\x00", "\r", "\n", "a\nb", "\t", "NaN", "nan", "Infinity", "-inf", "sNaN", "1e999999", "1e-999999", "99999999999999999999999999",
            "-99999999999999999999", "0x", "0x1g", "1_", "1__0", "007", "1.5", "1,5", "'\\x4'", "'\\u12'", "'\\N{bad}'", "b'a'", "r'a'", "f'{x}'", "'''", "lambda",
-           "None", "a b", "a.b", ".", "..", "....", "1...", "...1", "1...2...3", "5...1", "x" * 300, "١٢٣", "²", "1³", "①", "⁵⁶", "9" * 4400, "٣" * 4400, "1٣", "Ⅷ", "½", " ", "﻿", "%Q", "(?P<n>", "[a-", "a{2,1}", "*a", "\\"]
+           "None", "a b", "a.b", ".", "..", "....", "1...", "...1", "1...2...3", "5...1", "x" * 300, "١٢٣", "²", "1³", "①", "⁵⁶", "9" * 4400, "٣" * 4400, "1٣", "Ⅷ", "½", " ", "﻿", "%Q", "(?P<n>", "[a-", "a{2,1}", "*a", "\\", "DD.DD.YYYY", "hh:hh", "YYYY-YY-YYYY", "%d.%d",
+           "1\n  2\n 3", " 1\n2", "a\n\tb\n    c", "(\n1"]
 
 BASE_CIDS = {
     "delimited": [["D", "Format", "Delimited"], ["D", "Header", "1"], ["D", "Encoding", "utf-8"], ["D", "Allowed characters", "32..."],
@@ -37,6 +38,12 @@ DATA_CID = [["D", "Format", "Delimited"], ["F", "id", "", "", "", "Integer", "1.
             ["F", "day", "", "X", "", "DateTime", "DD.MM.YYYY"], ["F", "file", "", "X", "", "Pattern", "*.txt"], ["F", "code", "", "X", "", "RegEx", "[a-z]+[0-9]"],
             ["C", "unique id", "IsUnique", "id"], ["C", "few colors", "DistinctCount", "color < 3"]]
 DATA_ROW = ["17", "x", "red", "1.50", "31.12.2024", "a.txt", "ab1"]
+# the same fields in a fixed-width CID (widths = the length column); cells are padded / cut to the width before they are stored
+FIXED_DATA_CID = [["D", "Format", "Fixed"], ["D", "Line delimiter", "LF"], ["F", "id", "", "", "5", "Integer", "1...99999"], ["F", "name", "", "X", "8", "Text", ""],
+                  ["F", "color", "", "", "5", "Choice", "red, green"], ["F", "amount", "", "X", "8", "Decimal", "0...1000"],
+                  ["F", "day", "", "X", "10", "DateTime", "DD.MM.YYYY"], ["F", "file", "", "X", "6", "Pattern", "*.txt"], ["F", "code", "", "X", "4", "RegEx", "[a-z]+[0-9]"],
+                  ["C", "unique id", "IsUnique", "id"], ["C", "few colors", "DistinctCount", "color < 3"]]
+FIXED_WIDTHS = [5, 8, 5, 8, 10, 6, 4]
 
 
 def cell_kind(row, col):
@@ -70,7 +77,7 @@ def run(ctx):
     rnd = ctx.rnd
     ctx.rule = ("exhaustive one-cell-at-a-time: every cell of every row of four base CIDs (all formats, all 8 field types, both checks, all properties) replaced in "
                 "turn by each of %d hostile values; the same pool in every cell of a valid data row (yield mode and validate); pairs of hostile cells in the thorough "
-                "tier; text containers with undecodable bytes / unterminated quote / short record; the command line on the hostile CIDs; observable: class of "
+                "tier; the same pool in every cell of a fixed-width record (all field types); DistinctCount rules whose evaluation fails only for particular counts x 0-4 distinct values x 3 APIs; text containers (delimited and fixed-width files) with undecodable bytes / unterminated quote / short record / NUL / wrong delimiter; the command line on the hostile CIDs; observable: class of "
                 "whatever escapes; distinct = distinct (CID or data, position, value); non-trivial = every case" % len(HOSTILE))
     ctx.exhaustive = True
     ctx.level = "fault_enumeration"
@@ -111,34 +118,74 @@ def run(ctx):
     # ---- data cells ------------------------------------------------------------------------------------------------
     cid = interface.Cid()
     cid.read("c10-data", DATA_CID)
-    for j in range(len(DATA_ROW)):
+    fixed_cid = interface.Cid()
+    fixed_cid.read("c10-data-fixed", FIXED_DATA_CID)
+    import csv
+    for data_cid_name, data_cid in (("delimited", cid), ("fixed", fixed_cid)):
+      for j in range(len(DATA_ROW)):
         for h in HOSTILE:
             row = list(DATA_ROW)
             row[j] = h
-            text_io = io.StringIO()
-            import csv
-            csv.writer(text_io, lineterminator="\n").writerow(row)
-            text = text_io.getvalue()
+            if data_cid_name == "delimited":
+                text_io = io.StringIO()
+                csv.writer(text_io, lineterminator="\n").writerow(row)
+                text = text_io.getvalue()
+            else:
+                if "\n" in h or "\r" in h:
+                    continue    # would change the record structure: that is a container fault, covered below
+                text = "".join(c[:w].ljust(w) for c, w in zip(row, FIXED_WIDTHS)) + "\n"
             field = DATA_CID[1 + j][1]
-            ty = DATA_CID[1 + j][5]
+            ty = DATA_CID[1 + j][5] + ("" if data_cid_name == "delimited" else "@fixed")
             for api in ("rows", "validate"):
                 try:
                     if api == "rows":
-                        for item in validio.rows(cid, io.StringIO(text, newline=""), on_error="yield"):
+                        for item in validio.rows(data_cid, io.StringIO(text, newline=""), on_error="yield"):
                             if isinstance(item, Exception) and not isinstance(item, errors.DataError):
                                 raise item
                     else:
-                        validio.validate(cid, io.StringIO(text, newline=""))
+                        validio.validate(data_cid, io.StringIO(text, newline=""))
                     tag = "ok"
                 except errors.CutplaceError as error:
                     tag = core.classify_exception(error)
                 except Exception as error:  # noqa
                     tag = core.classify_exception(error)
                 case = {"field": field, "type": ty, "value": h, "api": api, "outcome": tag}
-                ctx.count(key=("data", j, h, api), branch="data:%s:%s" % (ty, tag))
+                ctx.count(key=("data", data_cid_name, j, h, api), branch="data:%s:%s" % (ty, tag))
                 ctx.sample(case)
                 if tag != "ok" and not core.is_cutplace_tag(tag):
                     ctx.violation("C10:data:%s:%s" % (ty, tag), "data cell %r in %s field %s makes %s raise %s" % (h, ty, field, api, tag), case)
+    # ---- end-of-data expressions: DistinctCount rules whose evaluation fails only for particular counts -----------------
+    END_EXPRESSIONS = ["% (count - 2) == 0", "/ (count - 1) > 0", "< [5, 6, 7][count]", "== {0: 0, 1: 1}[count]", "< int('1' * (1 + count * 2200))",
+                       "< 3 if count < 3 else count.missing", "< 2 or undefined_name", "< 10 and count / (count - 3) != 2", "<= (1, 2)[count - 1]", "< 5"]
+    for expr in END_EXPRESSIONS:
+        try:
+            end_cid = interface.Cid()
+            end_cid.read("c10-end", [["D", "Format", "Delimited"], ["F", "v", "", "", "", "Text", ""], ["C", "end", "DistinctCount", "v " + expr]])
+        except (errors.InterfaceError, errors.DataError):
+            ctx.count(key=("end", expr, "declare"), branch="end:declare:iface")
+            continue
+        except Exception as error:  # noqa
+            ctx.violation("C10:end-expression:declare:%s" % core.classify_exception(error), "DistinctCount rule %r makes Cid.read raise %s" % ("v " + expr, core.classify_exception(error)), {"rule": "v " + expr})
+            continue
+        for distinct in range(0, 5):
+            text = "".join("x%d\n" % (k % distinct) for k in range(distinct + 2)) if distinct else ""
+            for api in ("validate", "rows", "reader-close"):
+                try:
+                    if api == "validate":
+                        validio.validate(end_cid, io.StringIO(text, newline=""))
+                    elif api == "rows":
+                        list(validio.rows(end_cid, io.StringIO(text, newline=""), on_error="yield"))
+                    else:
+                        reader = validio.Reader(end_cid, io.StringIO(text, newline=""), on_error="continue")
+                        list(reader.rows())
+                        reader.close()
+                    tag = "ok"
+                except Exception as error:  # noqa
+                    tag = core.classify_exception(error)
+                ctx.count(key=("end", expr, distinct, api), branch="end:%s" % tag)
+                if tag != "ok" and not core.is_cutplace_tag(tag):
+                    ctx.violation("C10:end-expression:%s:%s" % (api, tag), "DistinctCount rule %r with %d distinct values: %s raises %s" % ("v " + expr, distinct, api, tag),
+                                  {"rule": "v " + expr, "distinct": distinct, "api": api})
     # ---- text containers ---------------------------------------------------------------------------------------------
     tmp = tempfile.mkdtemp(prefix="c10-")
     logging.disable(logging.CRITICAL)
@@ -161,6 +208,29 @@ def run(ctx):
                 ctx.count(key=("container", name, mode), branch="container:%s" % tag)
                 if tag != "ok" and not core.is_cutplace_tag(tag):
                     ctx.violation("C10:container:%s:%s" % (name, tag), "container fault %s in mode %s raises %s" % (name, mode, tag), {"fault": name, "mode": mode})
+        good_fixed = "".join(c.ljust(w) for c, w in zip(DATA_ROW, FIXED_WIDTHS)) + "\n"
+        fixed_blobs = {"undecodable-start": b"\x81\x8d" + good_fixed.encode("cp1252"), "undecodable-later": good_fixed.encode("cp1252") + b"18   \x81\x8d" + good_fixed.encode("cp1252")[7:],
+                       "short-record": (good_fixed + "19   x").encode("cp1252"), "nul-byte": (good_fixed + good_fixed.replace("x", "\x00")).encode("cp1252"), "empty": b"",
+                       "wrong-delimiter": good_fixed.replace("\n", "\r").encode("cp1252") + good_fixed.encode("cp1252")}
+        for name, blob in fixed_blobs.items():
+            path = os.path.join(tmp, name + ".txt")
+            with open(path, "wb") as f:
+                f.write(blob)
+            for mode in ("raise", "yield", "continue"):
+                for api in ("rows", "validate"):
+                    try:
+                        if api == "rows":
+                            list(validio.rows(fixed_cid, path, on_error=mode))
+                        elif mode == "raise":
+                            validio.validate(fixed_cid, path)
+                        else:
+                            continue
+                        tag = "ok"
+                    except Exception as error:  # noqa
+                        tag = core.classify_exception(error)
+                    ctx.count(key=("container-fixed", name, mode, api), branch="container-fixed:%s" % tag)
+                    if tag != "ok" and not core.is_cutplace_tag(tag):
+                        ctx.violation("C10:container-fixed:%s:%s" % (name, tag), "fixed-width container fault %s in mode %s (%s) raises %s" % (name, mode, api, tag), {"fault": name, "mode": mode, "api": api})
         # ---- the command line never answers CID / data problems with 4 ------------------------------------------------
         data_path = os.path.join(tmp, "data.csv")
         with open(data_path, "w") as f:
